@@ -3,16 +3,21 @@
    Assumptions beneath.  Model: Fix/Printer.v (mirrors libasn1print/asn1print.c for
    the modelled algebra; tied to the real `asn1c -E` byte for byte by bin/vcheck C12).
 
-   LEVEL: all theorems are at TOKEN level (pp_module : module_ast -> list token).
+   LEVEL: the module theorems are at TOKEN level (pp_module : module_ast -> list token).
    The byte layout ppb_module and the lexer are tied by execution on every generated
-   case (lex (ppb_module a) = Some (pp_module a)), not by a theorem.
+   case (lex (ppb_module a) = Some (pp_module a)), not by a theorem -- except for the VALUE
+   sub-language (C12_lex_value, C12_lex_bits below: byte level, unbounded).
+   Values (numbers, NULL, TRUE/FALSE, bit strings, character strings, reals in fixed notation,
+   value references `id` / `Module.id`) are part of the module AST in every position the
+   grammar has one: value assignments, DEFAULT, single-value constraints, range end points,
+   named numbers, ENUMERATED values, exception specs -- so C12_parse_pp covers them.
    "Two runs give identical files" is a fact about a C process; it is observed by the
    check, not stated here.  "Independent of the file order" has one modelled ingredient:
    the rule that decides which per-type names get the module prefix (Fix/NameClash.v,
    mirrors asn1f_check_duplicate / asn1c_make_identifier; theorems C12_clash_* below, tied
    to the C by the file names generated under every permutation of the file list). *)
-From Coq Require Import List Bool Permutation.
-From A1 Require Import Fix.Printer Fix.PrinterProofs Fix.NameClash Fix.NameClashProofs.
+From Coq Require Import List Bool Permutation Ascii.
+From A1 Require Import Fix.Printer Fix.PrinterProofs Fix.LexValues Fix.NameClash Fix.NameClashProofs.
 Import ListNotations.
 
 (* the reference parser inverts the printer on every well-formed module of the algebra
@@ -56,6 +61,36 @@ Theorem C12_example : wf_module ex_module = true /\ parse (pp_module ex_module) 
                       /\ lex (ppb_module ex_module) = Some (pp_module ex_module).
 Proof. exact (conj ex_module_wf (conj ex_module_roundtrip ex_module_lex)). Qed.
 Print Assumptions C12_example.
+
+(* --- byte level of the value sub-language (Fix/LexValues.v) ---------------------------- *)
+
+(* the spelling of a bit vector -- hstring with the digits 0-9A-F when the number of bits is a
+   multiple of 8, bstring otherwise (asn1print_value, ATV_BITVECTOR) -- is one lexeme of the
+   model lexer, whose value is that bit vector; any length, any continuation *)
+Theorem C12_lex_bits : forall bs rest, bs <> [] ->
+  lex1 (ppb_bits bs +++ rest) = Some (TBits bs, rest).
+Proof. exact lex1_bits. Qed.
+Print Assumptions C12_lex_bits.
+
+(* ... a character string with its quotes doubled likewise *)
+Theorem C12_lex_cstr : forall s rest, head_is (fun a => Ascii.eqb a dquote) rest = false ->
+  lex1 (ppb_cstr s +++ rest) = Some (TCstr s, rest).
+Proof. exact lex1_cstr. Qed.
+Print Assumptions C12_lex_cstr.
+
+(* the bytes printed for any well-formed value, followed by anything that cannot extend its last
+   token (blank, newline, `)`, `,`, `|`, `..`), are read back as the value's tokens followed by
+   the tokens of the rest: with C12_parse_pp, a printed value is re-read as the same value *)
+Theorem C12_lex_value : forall v rest, wf_value v = true -> vfollow rest = true ->
+  lex (ppb_value v +++ rest) = match lex rest with Some l => Some (pp_value v ++ l) | None => None end.
+Proof. exact lex_value. Qed.
+Print Assumptions C12_lex_value.
+
+(* the lexer has no lower-case hexadecimal digits (asn1p_l.l: '[0-9A-F ...]+'H) *)
+Theorem C12_lex_lowercase_hex_rejected : forall rest,
+  lex1 (SCons "'"%char (SCons "f"%char (SCons "f"%char (SCons "'"%char (SCons "H"%char rest))))) = None.
+Proof. exact lex1_lowercase_hex_rejected. Qed.
+Print Assumptions C12_lex_lowercase_hex_rejected.
 
 (* --- naming of the per-type output of a module set (Fix/NameClash.v) ----------------- *)
 
